@@ -10,6 +10,7 @@ import (
 	"flag"
 	"fmt"
 	"os"
+	"os/exec"
 	"path/filepath"
 	"runtime"
 	"sort"
@@ -22,6 +23,9 @@ import (
 )
 
 const verifDir = "/verif"
+
+// forceSingleWorker is set by the seam build: the map-order controller is process-global.
+var forceSingleWorker bool
 
 type knownFile struct {
 	Findings []struct {
@@ -79,6 +83,8 @@ func cmdCheck(args []string) int {
 	workers := fs.Int("workers", runtime.NumCPU(), "parallel workers")
 	budget := fs.Duration("budget", 0, "wall budget for the whole check (0 = tier default)")
 	only := fs.String("only", "", "run only units whose name contains this")
+	child := fs.Int("child", -1, "internal: run only unit #i and write its result as JSON to --child-out")
+	childOut := fs.String("child-out", "", "internal")
 	if len(args) < 1 {
 		fmt.Fprintln(os.Stderr, "usage: mc check <PROP>")
 		return 2
@@ -86,6 +92,9 @@ func cmdCheck(args []string) int {
 	prop := args[0]
 	_ = fs.Parse(args[1:])
 	seed, _ := strconv.Atoi(envOr("VERIF_SEED", "0"))
+	if forceSingleWorker {
+		*workers = 1
+	}
 	spec, ok := scen.Spec(prop, *tier)
 	if !ok {
 		fmt.Fprintf(os.Stderr, "no check registered for %s\n", prop)
@@ -119,6 +128,20 @@ func cmdCheck(args []string) int {
 	var states, trans, evals, nontrivial, validated int64
 	exhaustive := true
 	nUnits := len(spec.Units)
+	if *child >= 0 {
+		u := spec.Units[*child]
+		r := u.Run(scen.RunCtx{Workers: 1, Deadline: deadline, Seed: seed, Prop: prop})
+		if r.Err != nil {
+			r.ErrStr, r.Err = r.Err.Error(), nil
+		}
+		bz, _ := json.Marshal(r)
+		_ = os.WriteFile(*childOut, bz, 0o644)
+		return 0
+	}
+	var fan map[int]scen.UnitResult
+	if forceSingleWorker {
+		fan = fanout(prop, *tier, nUnits, *budget, runtime.NumCPU(), *only, spec)
+	}
 	for i, u := range spec.Units {
 		label := u.Name()
 		if l, ok := u.(interface{ Label() string }); ok {
@@ -133,7 +156,12 @@ func cmdCheck(args []string) int {
 			remain = 5 * time.Second
 		}
 		per := remain / time.Duration(nUnits-i)
-		r := u.Run(scen.RunCtx{Workers: *workers, Deadline: time.Now().Add(per), Seed: seed, Prop: prop})
+		var r scen.UnitResult
+		if fan != nil {
+			r = fan[i]
+		} else {
+			r = u.Run(scen.RunCtx{Workers: *workers, Deadline: time.Now().Add(per), Seed: seed, Prop: prop})
+		}
 		units = append(units, unitEv{Name: r.Name, Params: r.Params, Kind: r.Kind, States: r.States, Transitions: r.Transitions,
 			Executed: r.Executed, Maximal: r.Maximal, Depth: r.Depth, DepthTarget: r.DepthTarget, Exhaustive: r.Exhaustive,
 			Replayed: r.Replayed, Outcomes: r.Outcomes, WallS: r.Wall.Seconds()})
@@ -192,6 +220,9 @@ func cmdCheck(args []string) int {
 			continue
 		}
 		seenKeys[k] = true
+		if f.Property == "HARNESS" && prop == "C18" && (f.Key == "replay-divergence" || f.Key == "nondeterministic-prefix") {
+			f.Property = "C18" // for C18 a trace that does not replay identically is the finding itself
+		}
 		if f.Property == "HARNESS" {
 			nharness++
 			fmt.Printf("HARNESS-ERROR %s: %s trace=%v\n", f.Key, f.Msg, f.Trace)
@@ -250,6 +281,54 @@ func cmdCheck(args []string) int {
 		return 1
 	}
 	return 0
+}
+
+// fanout runs every unit in its own single-worker child process (the seam controller is
+// process-global), up to par at a time, each with the whole budget.
+func fanout(prop, tier string, n int, budget time.Duration, par int, only string, spec scen.CheckSpec) map[int]scen.UnitResult {
+	out := map[int]scen.UnitResult{}
+	type res struct {
+		i int
+		r scen.UnitResult
+	}
+	ch := make(chan res, n)
+	sem := make(chan struct{}, par)
+	started := 0
+	self, _ := os.Executable()
+	dir, _ := os.MkdirTemp("", "mc-fan")
+	defer os.RemoveAll(dir)
+	for i := 0; i < n; i++ {
+		label := spec.Units[i].Name()
+		if l, ok := spec.Units[i].(interface{ Label() string }); ok {
+			label = l.Label()
+		}
+		if only != "" && !strings.Contains(label, only) {
+			continue
+		}
+		started++
+		go func(i int) {
+			sem <- struct{}{}
+			defer func() { <-sem }()
+			of := filepath.Join(dir, fmt.Sprintf("u%d.json", i))
+			cmd := exec.Command(self, "check", prop, "--tier", tier, "--budget", budget.String(), "--child", fmt.Sprint(i), "--child-out", of)
+			cmd.Env = os.Environ()
+			outb, err := cmd.CombinedOutput()
+			var r scen.UnitResult
+			bz, rerr := os.ReadFile(of)
+			if rerr != nil || json.Unmarshal(bz, &r) != nil {
+				r = scen.UnitResult{Name: spec.Units[i].Name(), ErrStr: fmt.Sprintf("child failed: %v %s", err, firstLines(string(outb), 5))}
+			}
+			if r.ErrStr != "" {
+				r.Err = fmt.Errorf("%s", r.ErrStr)
+			}
+			ch <- res{i, r}
+		}(i)
+	}
+	for k := 0; k < started; k++ {
+		x := <-ch
+		out[x.i] = x.r
+	}
+	return out
 }
 
 func fmtParams(p map[string]any) string {
